@@ -2,10 +2,13 @@
 
    Case vocabulary of component 26 (shared with harness/src/t_fadt.rs and Impl/Fadt.v):
      ctor  (oem6 tbl8 orev)                    FADTBuilder::new(oem_id, oem_table_id, oem_revision)
-     ops   builder calls applied in order to the FADTBuilder value, repetitions allowed; each emits one Num 0
+     ops   builder calls and direct assignments of the builder's public fields, applied in order to the FADTBuilder value,
+           repetitions allowed, freely interleaved (the last writer of a field wins); each emits one Num 0
            (1 x) dsdt_32(x)   (2 x) dsdt_64(x)   (3 x) firmware_ctrl_32(x)   (4 x) firmware_ctrl_64(x)
            (5) acpi_enable()  (6) acpi_disable() (7 i) flag(Flags #i)        (8 gpe0_blk gpe1_blk gpe0_blk_len gpe1_blk_len gpe1_base) gpe_info
            (9 p) preferred_pm_profile(PmProfile #p)
+           (10 k v)                 b.<k-th assignable public scalar field> = (v as uN).into()       (table below)
+           (11 g sp bw bo ac addr)  b.<g-th GAS-typed public field> = GAS::new(AddressSpace #sp, bw, bo, AccessSize #ac, addr)
      Flags #i = the i-th value of enum fadt::Flags in declaration order:
            0 Wbinvd 1 WbinvdFlush 2 ProcC1 3 PLvl2Up 4 PwrButton 5 SlpButton 6 FixRtc 7 RtcS4 8 TmrValExt 9 DckCap 10 ResetRegSup
            11 SealedCase 12 Headless 13 CpuSwSlp 14 PciExpWak 15 UsePlatformClock 16 S4RtcStsValid 17 RemotePowerOnCapable
@@ -13,20 +16,57 @@
            22 PersistentCpuCachesNotReported 23 PersistentCpuCachesNotPersistent 24 PersistentCpuCachesArePersistent
      PmProfile #p: 0 Unspecified 1 Desktop 2 Mobile 3 Workstation 4 EnterpriseServer 5 SohoServer 6 AppliancePc
            7 PerformanceServer 8 Tablet
+     AddressSpace #sp / AccessSize #ac: the numbering of Spec/GasS.v (= the ACPI 6.5 5.2.3.2 codes: space 0..0xB and 0x7F,
+           access 0..4), the one used for every GAS-valued argument (components 21, 22); component 32 uses the same space ids 0 / 1 and access codes.
+
+     The assignable public scalar fields: every `pub` integer field of FADTBuilder after the 36-byte header, numbered k in
+     declaration order.  Not assignable here: the header fields (signature, length, major_version, checksum, oem_id,
+     oem_table_id, oem_revision, creator_id, creator_revision: a caller overwriting the header is outside the properties) and
+     the two private fields _reserved0 (offset 44) and _reserved1 (offset 111).
+        k  field                 offset width | k  field                 offset width | k  field                      offset width
+        0  firmware_ctrl            36   4    | 14 pm_tmr_blk               76   4    | 28 flush_stride                 102   2
+        1  dsdt                     40   4    | 15 gpe0_blk                 80   4    | 29 duty_offset                  104   1
+        2  preferred_pm_profile     45   1    | 16 gpe1_blk                 84   4    | 30 duty_width                   105   1
+        3  sci_int                  46   2    | 17 pm1_evt_len              88   1    | 31 day_alrm                     106   1
+        4  smi_cmd                  48   4    | 18 pm1_cnt_len              89   1    | 32 mon_alrm                     107   1
+        5  acpi_enable              52   1    | 19 pm2_cnt_len              90   1    | 33 century                      108   1
+        6  acpi_disable             53   1    | 20 pm_tmr_len               91   1    | 34 iapc_boot_arch               109   2
+        7  s4bios_req               54   1    | 21 gpe0_blk_len             92   1    | 35 flags                        112   4
+        8  pstate_cnt               55   1    | 22 gpe1_blk_len             93   1    | 36 reset_value                  128   1
+        9  pm1a_evt_blk             56   4    | 23 gpe1_base                94   1    | 37 arm_boot_arch                129   2
+        10 pm1b_evt_blk             60   4    | 24 cst_cnt                  95   1    | 38 fadt_minor_version           131   1
+        11 pm1a_cnt_blk             64   4    | 25 p_lvl2_lat               96   2    | 39 x_firmware_ctrl              132   8
+        12 pm1b_cnt_blk             68   4    | 26 p_lvl3_lat               98   2    | 40 x_dsdt                       140   8
+        13 pm2_cnt_blk              72   4    | 27 flush_size              100   2    | 41 hypervisor_vendor_identity   268   8
+     The GAS-typed public fields, numbered g in declaration order (12 bytes each: space id at +0, bit width +1, bit offset +2,
+     access size +3, address +4 (8 bytes)):
+        g  field            offset | g  field            offset | g  field              offset
+        0  reset_reg           116 | 4  x_pm1b_cnt_blk      184 | 8  x_gpe1_blk            232
+        1  x_pm1a_evt_blk      148 | 5  x_pm2_cnt_blk       196 | 9  sleep_control_reg     244
+        2  x_pm1b_evt_blk      160 | 6  x_pm_tmr_blk        208 | 10 sleep_status_reg      256
+        3  x_pm1a_cnt_blk      172 | 7  x_gpe0_blk          220 |
+     Domain: a value must fit the field it is given to (v < 2^(8 width); the Rust caller cannot express anything else), a GAS
+     needs a known space id / access size and byte-sized width / offset, as in Spec/GasS.v.
      observation `1`: a copy of the builder is finalize()d and the resulting FADT serialised. *)
 From Coq Require Import NArith List Bool.
 From ACPI Require Import Lib.Bytes Lib.Sx Spec.Layout Spec.GasS.
 Import ListNotations.
 Open Scope N_scope.
 
-(* what the caller's builder calls determine *)
-Record fadt_vals := {
-  v_fw : N; v_xfw : N; v_dsdt : N; v_xdsdt : N; v_enable : N; v_disable : N; v_flags : N;
-  v_gpe0 : N; v_gpe1 : N; v_gpe0_len : N; v_gpe1_len : N; v_gpe1_base : N; v_profile : N }.
+(* what the caller's calls and assignments determine: for every table offset at which a field of the body starts, the value
+   last written there.  An association list (offset, value), newest write first; a field never written holds its default:
+   0, except the FADT minor version (offset 131), which the constructor sets to 5 (crate-chosen, ACPI 6.5).  (The keys are
+   binary numbers so that the extracted oracle compares them quickly; the layout below names each offset twice, once as the
+   position `L off ..` and once as the key `val v off`.) *)
+Definition fadt_vals := list (N * N).
 
-Definition fadt_vals0 : fadt_vals :=
-  {| v_fw := 0; v_xfw := 0; v_dsdt := 0; v_xdsdt := 0; v_enable := 0; v_disable := 0; v_flags := 0;
-     v_gpe0 := 0; v_gpe1 := 0; v_gpe0_len := 0; v_gpe1_len := 0; v_gpe1_base := 0; v_profile := 0 |}.
+Definition fadt_vals0 : fadt_vals := [(131, 5)].
+
+Fixpoint val (v : fadt_vals) (off : N) : N :=
+  match v with
+  | [] => 0
+  | (o, x) :: r => if o =? off then x else val r off
+  end.
 
 (* Flags field: bits 0..21 one flag each; bits 23:22 persistent CPU caches: 0 not reported, 1 not persistent, 2 persistent *)
 Definition flag_ref (i : N) : option N :=
@@ -38,30 +78,63 @@ Definition flag_ref (i : N) : option N :=
        | _ => None
        end.
 
+(* the assignable scalar fields (offset, width), k-th entry = field k of the table above; offsets and widths from ACPI 6.5
+   Table 5.9 *)
+Definition fadt_scalars : list (N * nat) :=
+  [(36, 4%nat) (* FIRMWARE_CTRL *); (40, 4%nat) (* DSDT *); (45, 1%nat) (* Preferred_PM_Profile *); (46, 2%nat) (* SCI_INT *);
+   (48, 4%nat) (* SMI_CMD *); (52, 1%nat) (* ACPI_ENABLE *); (53, 1%nat) (* ACPI_DISABLE *); (54, 1%nat) (* S4BIOS_REQ *);
+   (55, 1%nat) (* PSTATE_CNT *); (56, 4%nat) (* PM1a_EVT_BLK *); (60, 4%nat) (* PM1b_EVT_BLK *); (64, 4%nat) (* PM1a_CNT_BLK *);
+   (68, 4%nat) (* PM1b_CNT_BLK *); (72, 4%nat) (* PM2_CNT_BLK *); (76, 4%nat) (* PM_TMR_BLK *); (80, 4%nat) (* GPE0_BLK *);
+   (84, 4%nat) (* GPE1_BLK *); (88, 1%nat) (* PM1_EVT_LEN *); (89, 1%nat) (* PM1_CNT_LEN *); (90, 1%nat) (* PM2_CNT_LEN *);
+   (91, 1%nat) (* PM_TMR_LEN *); (92, 1%nat) (* GPE0_BLK_LEN *); (93, 1%nat) (* GPE1_BLK_LEN *); (94, 1%nat) (* GPE1_BASE *);
+   (95, 1%nat) (* CST_CNT *); (96, 2%nat) (* P_LVL2_LAT *); (98, 2%nat) (* P_LVL3_LAT *); (100, 2%nat) (* FLUSH_SIZE *);
+   (102, 2%nat) (* FLUSH_STRIDE *); (104, 1%nat) (* DUTY_OFFSET *); (105, 1%nat) (* DUTY_WIDTH *); (106, 1%nat) (* DAY_ALRM *);
+   (107, 1%nat) (* MON_ALRM *); (108, 1%nat) (* CENTURY *); (109, 2%nat) (* IAPC_BOOT_ARCH *); (112, 4%nat) (* Flags *);
+   (128, 1%nat) (* RESET_VALUE *); (129, 2%nat) (* ARM_BOOT_ARCH *); (131, 1%nat) (* FADT Minor Version *);
+   (132, 8%nat) (* X_FIRMWARE_CTRL *); (140, 8%nat) (* X_DSDT *); (268, 8%nat) (* Hypervisor Vendor Identity *)].
+
+(* the GAS fields: offset of the g-th *)
+Definition fadt_gas_offs : list N :=
+  [116 (* RESET_REG *); 148 (* X_PM1a_EVT_BLK *); 160 (* X_PM1b_EVT_BLK *); 172 (* X_PM1a_CNT_BLK *); 184 (* X_PM1b_CNT_BLK *);
+   196 (* X_PM2_CNT_BLK *); 208 (* X_PM_TMR_BLK *); 220 (* X_GPE0_BLK *); 232 (* X_GPE1_BLK *); 244 (* SLEEP_CONTROL_REG *);
+   256 (* SLEEP_STATUS_REG *)].
+
+(* (10 k x): field k takes the value x *)
+Definition fadt_assign (v : fadt_vals) (k x : N) : option fadt_vals :=
+  match nth_error fadt_scalars (N.to_nat k) with
+  | Some (off, w) => if x <? 2 ^ (8 * N.of_nat w) then Some ((off, x) :: v) else None
+  | None => None
+  end.
+
+(* (11 g sp bw bo ac addr): the five sub-fields of GAS field g take the five values *)
+Definition fadt_assign_gas (v : fadt_vals) (g sp bw bo ac addr : N) : option fadt_vals :=
+  match nth_error fadt_gas_offs (N.to_nat g) with
+  | Some off =>
+      if gas_space_ok sp && gas_access_ok ac && (bw <? 256) && (bo <? 256) && (addr <? 2 ^ 64)
+      then Some ((off, sp) :: (off + 1, bw) :: (off + 2, bo) :: (off + 3, ac) :: (off + 4, addr) :: v)
+      else None
+  | None => None
+  end.
+
 Definition fadt_apply (v : fadt_vals) (o : sx) : option fadt_vals :=
-  let upd fw xfw dsdt xdsdt en dis flags g0 g1 l0 l1 gb p :=
-    Some {| v_fw := fw; v_xfw := xfw; v_dsdt := dsdt; v_xdsdt := xdsdt; v_enable := en; v_disable := dis; v_flags := flags;
-            v_gpe0 := g0; v_gpe1 := g1; v_gpe0_len := l0; v_gpe1_len := l1; v_gpe1_base := gb; v_profile := p |} in
-  match v with
-  | {| v_fw := fw; v_xfw := xfw; v_dsdt := dsdt; v_xdsdt := xdsdt; v_enable := en; v_disable := dis; v_flags := flags;
-       v_gpe0 := g0; v_gpe1 := g1; v_gpe0_len := l0; v_gpe1_len := l1; v_gpe1_base := gb; v_profile := p |} =>
-      match o with
-      | SL [SA 1; SA x] => if x <? 2 ^ 32 then upd fw xfw x 0 en dis flags g0 g1 l0 l1 gb p else None       (* DSDT = x, X_DSDT = 0 *)
-      | SL [SA 2; SA x] => if x <? 2 ^ 64 then upd fw xfw 0 x en dis flags g0 g1 l0 l1 gb p else None       (* DSDT = 0, X_DSDT = x *)
-      | SL [SA 3; SA x] => if x <? 2 ^ 32 then upd x 0 dsdt xdsdt en dis flags g0 g1 l0 l1 gb p else None
-      | SL [SA 4; SA x] => if x <? 2 ^ 64 then upd 0 x dsdt xdsdt en dis flags g0 g1 l0 l1 gb p else None
-      | SL [SA 5] => upd fw xfw dsdt xdsdt 1 0 flags g0 g1 l0 l1 gb p                                       (* ACPI_ENABLE = 1, ACPI_DISABLE = 0 *)
-      | SL [SA 6] => upd fw xfw dsdt xdsdt 0 1 flags g0 g1 l0 l1 gb p
-      | SL [SA 7; SA i] => match flag_ref i with
-                           | Some b => upd fw xfw dsdt xdsdt en dis (N.lor flags b) g0 g1 l0 l1 gb p
-                           | None => None
-                           end
-      | SL [SA 8; SA a; SA b; SA c; SA d; SA e] =>
-          if (a <? 2 ^ 32) && (b <? 2 ^ 32) && (c <? 256) && (d <? 256) && (e <? 256)
-          then upd fw xfw dsdt xdsdt en dis flags a b c d e p else None
-      | SL [SA 9; SA q] => if q <=? 8 then upd fw xfw dsdt xdsdt en dis flags g0 g1 l0 l1 gb q else None
-      | _ => None
-      end
+  match o with
+  | SL [SA 1; SA x] => if x <? 2 ^ 32 then Some ((40, x) :: (140, 0) :: v) else None       (* DSDT = x, X_DSDT = 0 *)
+  | SL [SA 2; SA x] => if x <? 2 ^ 64 then Some ((40, 0) :: (140, x) :: v) else None       (* DSDT = 0, X_DSDT = x *)
+  | SL [SA 3; SA x] => if x <? 2 ^ 32 then Some ((36, x) :: (132, 0) :: v) else None       (* FIRMWARE_CTRL = x, X_FIRMWARE_CTRL = 0 *)
+  | SL [SA 4; SA x] => if x <? 2 ^ 64 then Some ((36, 0) :: (132, x) :: v) else None
+  | SL [SA 5] => Some ((52, 1) :: (53, 0) :: v)                                             (* ACPI_ENABLE = 1, ACPI_DISABLE = 0 *)
+  | SL [SA 6] => Some ((52, 0) :: (53, 1) :: v)
+  | SL [SA 7; SA i] => match flag_ref i with
+                       | Some b => Some ((112, N.lor (val v 112) b) :: v)                       (* Flags |= the flag's bits *)
+                       | None => None
+                       end
+  | SL [SA 8; SA a; SA b; SA c; SA d; SA e] =>
+      if (a <? 2 ^ 32) && (b <? 2 ^ 32) && (c <? 256) && (d <? 256) && (e <? 256)
+      then Some ((80, a) :: (84, b) :: (92, c) :: (93, d) :: (94, e) :: v) else None
+  | SL [SA 9; SA q] => if q <=? 8 then Some ((45, q) :: v) else None
+  | SL [SA 10; SA k; SA x] => fadt_assign v k x
+  | SL [SA 11; SA g; SA sp; SA bw; SA bo; SA ac; SA addr] => fadt_assign_gas v g sp bw bo ac addr
+  | _ => None
   end.
 
 Fixpoint fadt_fold (v : fadt_vals) (ops : list sx) : option fadt_vals :=
@@ -74,29 +147,39 @@ Fixpoint fadt_fold (v : fadt_vals) (ops : list sx) : option fadt_vals :=
 Definition lay_from (base size : nat) (l : layout) : option (list N) :=
   if layout_ok_from base l && Nat.eqb (base + layout_size l) size then Some (assemble l) else None.
 
-Definition gas0 (off : nat) : layout := [L off 1 0; L (off + 1) 1 0; L (off + 2) 1 0; L (off + 3) 1 0; L (off + 4) 8 0].
+(* a Generic Address Structure at table offset off *)
+Definition gas_at (v : fadt_vals) (off : nat) : layout :=
+  let o := N.of_nat off in
+  [L off 1 (val v o) (* space id *); L (off + 1) 1 (val v (o + 1)) (* bit width *); L (off + 2) 1 (val v (o + 2)) (* bit offset *);
+   L (off + 3) 1 (val v (o + 3)) (* access size *); L (off + 4) 8 (val v (o + 4)) (* address *)].
 
-Definition fadt_body (v : fadt_vals) : option (list N) :=
-  lay_from 36 276
-    ([L 36 4 (v_fw v) (* FIRMWARE_CTRL *); L 40 4 (v_dsdt v) (* DSDT *); L 44 1 0; L 45 1 (v_profile v) (* Preferred_PM_Profile *);
-      L 46 2 0 (* SCI_INT *); L 48 4 0 (* SMI_CMD *); L 52 1 (v_enable v) (* ACPI_ENABLE *); L 53 1 (v_disable v) (* ACPI_DISABLE *);
-      L 54 1 0 (* S4BIOS_REQ *); L 55 1 0 (* PSTATE_CNT *);
-      L 56 4 0 (* PM1a_EVT_BLK *); L 60 4 0 (* PM1b_EVT_BLK *); L 64 4 0 (* PM1a_CNT_BLK *); L 68 4 0 (* PM1b_CNT_BLK *);
-      L 72 4 0 (* PM2_CNT_BLK *); L 76 4 0 (* PM_TMR_BLK *); L 80 4 (v_gpe0 v) (* GPE0_BLK *); L 84 4 (v_gpe1 v) (* GPE1_BLK *);
-      L 88 1 0 (* PM1_EVT_LEN *); L 89 1 0 (* PM1_CNT_LEN *); L 90 1 0 (* PM2_CNT_LEN *); L 91 1 0 (* PM_TMR_LEN *);
-      L 92 1 (v_gpe0_len v) (* GPE0_BLK_LEN *); L 93 1 (v_gpe1_len v) (* GPE1_BLK_LEN *); L 94 1 (v_gpe1_base v) (* GPE1_BASE *);
-      L 95 1 0 (* CST_CNT *); L 96 2 0 (* P_LVL2_LAT *); L 98 2 0 (* P_LVL3_LAT *); L 100 2 0 (* FLUSH_SIZE *);
-      L 102 2 0 (* FLUSH_STRIDE *); L 104 1 0 (* DUTY_OFFSET *); L 105 1 0 (* DUTY_WIDTH *); L 106 1 0 (* DAY_ALRM *);
-      L 107 1 0 (* MON_ALRM *); L 108 1 0 (* CENTURY *); L 109 2 0 (* IAPC_BOOT_ARCH *); L 111 1 0;
-      L 112 4 (v_flags v) (* Flags *)]
-     ++ gas0 116 (* RESET_REG *)
-     ++ [L 128 1 0 (* RESET_VALUE *); L 129 2 0 (* ARM_BOOT_ARCH *); L 131 1 5 (* FADT minor version *);
-         L 132 8 (v_xfw v) (* X_FIRMWARE_CTRL *); L 140 8 (v_xdsdt v) (* X_DSDT *)]
-     ++ gas0 148 (* X_PM1a_EVT_BLK *) ++ gas0 160 (* X_PM1b_EVT_BLK *) ++ gas0 172 (* X_PM1a_CNT_BLK *)
-     ++ gas0 184 (* X_PM1b_CNT_BLK *) ++ gas0 196 (* X_PM2_CNT_BLK *) ++ gas0 208 (* X_PM_TMR_BLK *)
-     ++ gas0 220 (* X_GPE0_BLK *) ++ gas0 232 (* X_GPE1_BLK *) ++ gas0 244 (* SLEEP_CONTROL_REG *)
-     ++ gas0 256 (* SLEEP_STATUS_REG *)
-     ++ [L 268 8 0 (* Hypervisor Vendor Identity *)]).
+(* ACPI 6.5 Table 5.9 after the header: every field holds the value last written at its offset; the two reserved bytes are 0 *)
+Definition fadt_layout (v : fadt_vals) : layout :=
+    ([L 36 4 (val v 36) (* FIRMWARE_CTRL *); L 40 4 (val v 40) (* DSDT *); L 44 1 0 (* reserved *);
+      L 45 1 (val v 45) (* Preferred_PM_Profile *);
+      L 46 2 (val v 46) (* SCI_INT *); L 48 4 (val v 48) (* SMI_CMD *); L 52 1 (val v 52) (* ACPI_ENABLE *);
+      L 53 1 (val v 53) (* ACPI_DISABLE *); L 54 1 (val v 54) (* S4BIOS_REQ *); L 55 1 (val v 55) (* PSTATE_CNT *);
+      L 56 4 (val v 56) (* PM1a_EVT_BLK *); L 60 4 (val v 60) (* PM1b_EVT_BLK *); L 64 4 (val v 64) (* PM1a_CNT_BLK *);
+      L 68 4 (val v 68) (* PM1b_CNT_BLK *); L 72 4 (val v 72) (* PM2_CNT_BLK *); L 76 4 (val v 76) (* PM_TMR_BLK *);
+      L 80 4 (val v 80) (* GPE0_BLK *); L 84 4 (val v 84) (* GPE1_BLK *);
+      L 88 1 (val v 88) (* PM1_EVT_LEN *); L 89 1 (val v 89) (* PM1_CNT_LEN *); L 90 1 (val v 90) (* PM2_CNT_LEN *);
+      L 91 1 (val v 91) (* PM_TMR_LEN *); L 92 1 (val v 92) (* GPE0_BLK_LEN *); L 93 1 (val v 93) (* GPE1_BLK_LEN *);
+      L 94 1 (val v 94) (* GPE1_BASE *); L 95 1 (val v 95) (* CST_CNT *);
+      L 96 2 (val v 96) (* P_LVL2_LAT *); L 98 2 (val v 98) (* P_LVL3_LAT *); L 100 2 (val v 100) (* FLUSH_SIZE *);
+      L 102 2 (val v 102) (* FLUSH_STRIDE *); L 104 1 (val v 104) (* DUTY_OFFSET *); L 105 1 (val v 105) (* DUTY_WIDTH *);
+      L 106 1 (val v 106) (* DAY_ALRM *); L 107 1 (val v 107) (* MON_ALRM *); L 108 1 (val v 108) (* CENTURY *);
+      L 109 2 (val v 109) (* IAPC_BOOT_ARCH *); L 111 1 0 (* reserved *);
+      L 112 4 (val v 112) (* Flags *)]
+     ++ gas_at v 116 (* RESET_REG *)
+     ++ [L 128 1 (val v 128) (* RESET_VALUE *); L 129 2 (val v 129) (* ARM_BOOT_ARCH *); L 131 1 (val v 131) (* FADT minor version *);
+         L 132 8 (val v 132) (* X_FIRMWARE_CTRL *); L 140 8 (val v 140) (* X_DSDT *)]
+     ++ gas_at v 148 (* X_PM1a_EVT_BLK *) ++ gas_at v 160 (* X_PM1b_EVT_BLK *) ++ gas_at v 172 (* X_PM1a_CNT_BLK *)
+     ++ gas_at v 184 (* X_PM1b_CNT_BLK *) ++ gas_at v 196 (* X_PM2_CNT_BLK *) ++ gas_at v 208 (* X_PM_TMR_BLK *)
+     ++ gas_at v 220 (* X_GPE0_BLK *) ++ gas_at v 232 (* X_GPE1_BLK *) ++ gas_at v 244 (* SLEEP_CONTROL_REG *)
+     ++ gas_at v 256 (* SLEEP_STATUS_REG *)
+     ++ [L 268 8 (val v 268) (* Hypervisor Vendor Identity *)]).
+
+Definition fadt_body (v : fadt_vals) : option (list N) := lay_from 36 276 (fadt_layout v).
 
 Definition fadt_ref_image (ctor : sx) (ops : list sx) : option (list N) :=
   match ctor with
